@@ -14,8 +14,8 @@ structure Safe (s : State) : Prop where
   solv : Solvent s
 
 /-- the queue invariant only reads the queues, the book statuses and the markets -/
-theorem QInv.of_frame {s s' : State} (hQ : QInv s) (h1 : s'.mqueue = s.mqueue) (h2 : s'.obqueue = s.obqueue)
-    (h3 : ∀ u, statusOf s' u = statusOf s u) (h4 : s'.markets = s.markets) : QInv s' :=
+theorem SbQInv.of_frame {s s' : State} (hQ : SbQInv s) (h1 : s'.mqueue = s.mqueue) (h2 : s'.obqueue = s.obqueue)
+    (h3 : ∀ u, statusOf s' u = statusOf s u) (h4 : s'.markets = s.markets) : SbQInv s' :=
   ⟨by rw [h1]; exact hQ.nodupM, by rw [h2]; exact hQ.nodupO,
    fun u hu => by rw [h3]; exact hQ.mActive u (by rw [← h1]; exact hu),
    fun u hu => by rw [h3]; exact hQ.oResolved u (by rw [← h2]; exact hu),
@@ -72,7 +72,7 @@ theorem replaceBook_keeps {s s' : State} {b B : Book} (hH : HInv s) (hV : Solven
     intro u i
     unfold promisedW
     rw [hbets]
-    exact sumBy_congr _ _ _ (fun x _ => by rw [winsOn_congr hmk])
+    exact sumBy_congrSB _ _ _ (fun x _ => by rw [winsOn_congr hmk])
   refine ⟨⟨by rw [hbets]; exact hH.betStatus, by rw [hmk]; exact hH.marketStatus, ?_⟩, ⟨by rw [hbets]; exact hV.betNonneg, ?_⟩⟩
   · intro y hy ho f hf
     rw [hbets] at hy
@@ -150,7 +150,7 @@ theorem betEndBlockStep_ok {s : State} {mk n : Nat} {R : List Nat} (hS : Safe s)
       show (if u = b.uid then _ else _) = _
       rw [hbu]
       rfl
-    have hQ' : QInv ({ (setBook { r0.1 with mqueue := R } { b with status := OB_RESOLVED }) with obqueue := r0.1.obqueue ++ [mk] } : State) := by
+    have hQ' : SbQInv ({ (setBook { r0.1 with mqueue := R } { b with status := OB_RESOLVED }) with obqueue := r0.1.obqueue ++ [mk] } : State) := by
       refine qinv_after_bet (D1 := [mk]) hS0.reach.inv hS0.reach.q (by rw [hmq0, hq]; rfl) rfl ?_ ?_ rfl
       · intro u hu
         rw [hst]
@@ -196,7 +196,7 @@ theorem settlePart_ok {s : State} {b : Book} {p : Part} {m : Market} (hun : p.is
     (hf0 : 0 ≤ p.fee) (hf1 : p.fee ≤ getBal s.bal ACC_HOUSEFEE) (hpu : isModuleAcc p.addr = false) :
     ∃ r, settlePart s b p m = some r := by
   obtain ⟨n1, _, n3⟩ := isModuleAcc_false_ne hpu
-  obtain ⟨s1, hs1⟩ := bankSend_ok s ACC_POOL p.addr (p.payout m) (by rw [hpay]; exact h0) (by rw [hpay]; exact h1)
+  obtain ⟨s1, hs1⟩ := bankSend_okSB s ACC_POOL p.addr (p.payout m) (by rw [hpay]; exact h0) (by rw [hpay]; exact h1)
   obtain ⟨bal1, rfl, _, _, _, o1⟩ := bankSend_spec hs1 (Ne.symm n1)
   have hfee : p.fee ≤ getBal ({ s with bal := bal1 } : State).bal ACC_HOUSEFEE := by
     show p.fee ≤ getBal bal1 ACC_HOUSEFEE
@@ -208,11 +208,11 @@ theorem settlePart_ok {s : State} {b : Book} {p : Part} {m : Market} (hun : p.is
   unfold settlePart
   simp only [bind, hchk0, hchk, hs1, Option.bind_some]
   by_cases hfd : p.feeToDepositor m = true
-  · obtain ⟨s2, hs2⟩ := bankSend_ok { s with bal := bal1 } ACC_HOUSEFEE p.addr p.fee hf0 hfee
+  · obtain ⟨s2, hs2⟩ := bankSend_okSB { s with bal := bal1 } ACC_HOUSEFEE p.addr p.fee hf0 hfee
     rw [if_pos hfd]
     simp only [hs2, Option.bind_some]
     exact ⟨_, rfl⟩
-  · obtain ⟨s2, hs2⟩ := bankSend_ok { s with bal := bal1 } ACC_HOUSEFEE m.creator p.fee hf0 hfee
+  · obtain ⟨s2, hs2⟩ := bankSend_okSB { s with bal := bal1 } ACC_HOUSEFEE m.creator p.fee hf0 hfee
     rw [if_neg hfd]
     simp only [hs2, Option.bind_some]
     exact ⟨_, rfl⟩
@@ -373,7 +373,7 @@ theorem obEndBlock_ok : ∀ (fuel : Nat) (s : State) (n : Nat), Safe s → ∃ s
           rw [hI.pool]
           unfold owedPool
           have h1 := sumBy_mem_le Book.owed s.books (fun x hx => (hS.solv.book_nonneg x hx).1) b hbm
-          have h2 := sumBy_nonneg Bet.owedStake s.bets (fun x hx => (hS.solv.stake_nonneg x hx).1)
+          have h2 := sumBy_nonnegSB Bet.owedStake s.bets (fun x hx => (hS.solv.stake_nonneg x hx).1)
           omega
         have e2 : b.owedFee ≤ getBal s.bal ACC_HOUSEFEE := by
           rw [hI.houseFee]
@@ -415,7 +415,7 @@ theorem obEndBlock_ok : ∀ (fuel : Nat) (s : State) (n : Nat), Safe s → ∃ s
           have hSafe : Safe S1 := by
             have hIdx : BetIdx S1 := hS.reach.idx.of_eq (by rw [← hS1]; rfl) (by rw [← hS1]; rfl) (by rw [← hS1]; rfl) (by rw [← hS1]; rfl)
             have hInv : SettleInv S1 := obEndBlock_inv 1 s n 0 S1 hI hone
-            have hQ : QInv S1 := by
+            have hQ : SbQInv S1 := by
               refine qinv_after_ob (D2 := [uid]) hS.reach.q (by rw [← hS1]; exact hqR) (by rw [← hS1]; rfl) ?_ ?_ (by rw [← hS1]; rfl)
               · intro u hu
                 rw [hst1]
@@ -441,7 +441,7 @@ theorem obEndBlock_ok : ∀ (fuel : Nat) (s : State) (n : Nat), Safe s → ∃ s
           have hSafe : Safe S1 := by
             have hIdx : BetIdx S1 := hS.reach.idx.of_eq (by rw [← hS1]; rfl) (by rw [← hS1]; rfl) (by rw [← hS1]; rfl) (by rw [← hS1]; rfl)
             have hInv : SettleInv S1 := obEndBlock_inv 1 s n 0 S1 hI hone
-            have hQ : QInv S1 := by
+            have hQ : SbQInv S1 := by
               refine hS.reach.q.of_frame (by rw [← hS1]; rfl) (by rw [← hS1]; rfl) ?_ (by rw [← hS1]; rfl)
               intro u
               rw [← hS1, statusOf_setBook, a2, hbu]
